@@ -318,8 +318,15 @@ void compare_single(const Val& out, int unary, int op, const Val& A, const Val& 
                 tol_re = C_ADD * EPS * std::fabs(v.real());
                 tol_im = 0;
             } else {
-                const ld t = op == MUL ? C_MUL * EPS * mod(a[k]) * mod(b[k]) : C_DIV * EPS * mod(a[k]) / mod(b[k]);
-                tol_re = tol_im = -t;   // marker: modulus criterion
+                if (op == MUL) {
+                    // the usual product formula (ac - bd, ad + bc) is accurate per COMPONENT relative to the sum of the magnitudes of its
+                    // two terms; a form that is only accurate relative to |a||b| (three-multiplication products) loses the small component
+                    tol_re = C_MUL * EPS * (std::fabs(a[k].real() * b[k].real()) + std::fabs(a[k].imag() * b[k].imag()));
+                    tol_im = C_MUL * EPS * (std::fabs(a[k].real() * b[k].imag()) + std::fabs(a[k].imag() * b[k].real()));
+                } else {
+                    const ld t = C_DIV * EPS * mod(a[k]) / mod(b[k]);
+                    tol_re = tol_im = -t;   // marker: modulus criterion
+                }
             }
         }
         ld err, tol;
